@@ -5,7 +5,7 @@ from regpcommon import *
 
 META = dict(
     engine='Regp.tla',
-    technique='TLA+ spec Regp.tla / RegpTrace.tla (RxAllowed: ledger, overflow / busy / short-frame replies, read limit with its grey zone, channel errors); regp_recv + regp_process + regp_free of the real library run on exact-size allocator blocks under ASan for every frame length around the block capacity, every read size around the transmit limit, allocation failure, block sizes from sizeof(frame)+1 upward, truncated and mutated streams and random octet streams on both transports; TLC validates each recorded run incl. the allocator ledger; ASan decides the out-of-block clauses',
+    technique='TLA+ spec RegpOps.tla / RegpRxMC.tla (TLC enumerates receive cycles at the resource boundaries - capacities, frame lengths around the capacity, read sizes around the limit, allocation failure, frames cut below a header - checks C09Holds on every allowed outcome and emits each case for replay) and Regp.tla / RegpTrace.tla (RxAllowed: ledger, overflow / busy / short-frame replies, read limit with its grey zone, channel errors); regp_recv + regp_process + regp_free of the real library run on exact-size allocator blocks under ASan for every frame length around the block capacity, every read size around the transmit limit, allocation failure, block sizes from sizeof(frame)+1 upward, truncated and mutated streams and random octet streams on both transports; TLC validates each recorded run incl. the allocator ledger; ASan decides the out-of-block clauses',
     level='Every recorded run is validated by TLC: blocks obtained = blocks released, none twice, none live afterwards (also when the channel fails mid-frame); a frame longer than the block capacity is answered with a receive-overflow response, an allocation failure with a busy response, an empty or sub-header frame with the bad-header-encoding meta message; a read of n words is refused with transmit-overflow carrying the capacity when it cannot fit and served when it fits (either in the 4-octet grey zone between), and in every served case the recording backend fills all n words of the buffer it is handed, and for writes reads the whole announced block, so that ASan (exact-size blocks) observes any shortfall; no crash, no hang (call budget / watchdog).',
     note='Trusted: TLC, harness/regp.c (ledger allocator, recording backend), ASan. The receive-overflow reply may or may not carry the 32-bit capacity (document says it shall, the statement does not); busy/overflow replies are compared for well-formed requests only. A libFuzzer-driven generator was not built; random and mutated-valid streams are seeded.',
 )
@@ -98,6 +98,18 @@ def run(tier):
     v = vf.Verdict('C09', tier)
     vf.build()
     quick = tier != 'thorough'
+    # E0/E1: TLC enumerates cycles at the resource boundaries, checks C09Holds on every allowed outcome (RegpRxMC.tla) and emits
+    # each case with its allowed observations; all are replayed (source / allocator flavours chosen per case)
+    cases = []
+    rm = vf.tlc_must_pass('RegpRxMC.tla', 'RegpRxMC.cfg', 'regprx', heap='8g',
+                          sink=lambda b: cases.append(flavoured(b[3:])) if b.startswith('C;;') else None)
+    v.add_tlc(rm)
+    res1 = vf.run_scripts('regp', [cases[i:i + 100] for i in range(0, len(cases), 100)], 'C09', name='rxc')
+    v.exec_problems(res1, 'regp')
+    v.cov['traces_validated_against_impl'] += len(cases)
+    v.cov['evaluations'] += res1.checked
+    v.cov['samples'].append(dict(kind='E1 case from TLC (RegpRxMC.tla): rx call | allowed observations', events=cases[100:102]))
+    v.notes['e0_e1'] = dict(model='RegpRxMC.tla', cases=len(cases), invariant='C09Holds')
     rnd = random.Random(vf.seed())
     r0 = vf.run_scripts('regp', [['sizeof']], 'C09', name='probe', record=True)
     import json
